@@ -47,7 +47,11 @@ def _formulas(name, tier):
         if seen.get(k, 0) < per:
             seen[k] = seen.get(k, 0) + 1
             out.append(f)
-    return out + _fallback_operator_formulas(name)
+    extra = []
+    if name == "assgn":
+        # witness of the known finding about nth on open trees (first seen in the thorough tier's larger formula set)
+        extra.append(("exists", "<rhs>", "a", None, "start", ("forall", "<stmt>", "b", None, "start", ("pred", "nth", (1,), "a", "b"))))
+    return out + _fallback_operator_formulas(name) + [f for f in extra if f not in out]
 
 
 def _fallback_operator_formulas(name):
